@@ -218,9 +218,12 @@ def run_case(kind, params):
 
 def gen_history(rng, k):
     pat = impl.pattern_params(rng, rmax=5.0)
+    if k % 7 == 6:
+        # the smallest patterns: search windows of 2x2 and 4x4 pixels (crop size 1 and 2)
+        pat = {"kind": "circular", "radius": float(rng.choice([0.5, 0.8, 1.0])), "search": float(rng.choice([1.0, 1.0, 1.6, 2.0]))}
     c = int(np.ceil(pat["search"]))
     shape = (int(rng.integers(2 * c + 2, 60)), int(rng.integers(2 * c + 2, 60)))
-    if k % 5 == 3:   # a frame narrower than the correlation window along one or both axes (windows stick out at both ends)
+    if k % 5 == 3 and c >= 2:   # a frame narrower than the correlation window along one or both axes (windows stick out at both ends)
         shape = (int(rng.integers(3, 2 * c)), shape[1]) if k % 2 else (shape[0], int(rng.integers(3, 2 * c)))
         if k % 15 == 3:
             shape = (int(rng.integers(3, 2 * c)), int(rng.integers(3, 2 * c)))
